@@ -275,23 +275,15 @@ func ruleBuffer(ctx *Ctx, r *Report, tname string, fn *ssa.Function, isWrite boo
 		if !okSent {
 			continue
 		}
-		// re-bind after send in the same block
-		rebound := false
-		b := s.Block()
-		for j := instrIndex(s) + 1; j < len(b.Instrs); j++ {
-			if st, ok := b.Instrs[j].(*ssa.Store); ok {
-				if f, ok := fieldOfRecv(fn, st.Addr); ok && f == fname {
-					rebound = isFreshSlice(st.Val)
-					break
-				}
-			}
-			if _, ok := isMutexCall(b.Instrs[j], "Unlock"); ok {
-				break
-			}
-		}
+		// re-binding: from the load of the value that is sent up to the end of the critical
+		// section (Unlock, or return under a deferred Unlock) every path through the send must
+		// leave a fresh slice in the field, and must not store anything derived from the old
+		// buffer in between (buf[:0] aliases what the consumer now owns; an append after the
+		// load would be lost).
+		rebound := reboundFresh(fn, ld, s, fname)
 		r.check("B1", skey+"|buffer-rebound-to-fresh-slice-after-send", s.Pos(), rebound, "after the send the consumer owns the slice: the field must become a new make()/nil before the lock is released (buf[:0] would alias it)")
 		// B2 guard
-		guards := branchGuards(b)
+		guards := branchGuards(s.Block())
 		okG := len(guards) == 1
 		gdesc := ""
 		if okG {
@@ -359,6 +351,130 @@ func ruleBuffer(ctx *Ctx, r *Report, tname string, fn *ssa.Function, isWrite boo
 	}
 }
 
+// reboundFresh walks the CFG from the load `ld` of the buffer field (the value later sent by
+// `snd`) to the end of the critical section and reports whether, on every such path that
+// passes the send, the last store into the field is a fresh slice and no store derived from
+// the old buffer precedes it.
+func reboundFresh(fn *ssa.Function, ld *ssa.UnOp, snd *ssa.Send, fname string) bool {
+	const (
+		stNone  = 0
+		stFresh = 1
+		stBad   = 2
+	)
+	type key struct {
+		b    *ssa.BasicBlock
+		i    int
+		st   int
+		sent bool
+	}
+	seen := map[key]bool{}
+	ok := true
+	var walk func(b *ssa.BasicBlock, i int, st int, sent bool)
+	walk = func(b *ssa.BasicBlock, i int, st int, sent bool) {
+		k := key{b, i, st, sent}
+		if seen[k] {
+			return
+		}
+		seen[k] = true
+		for ; i < len(b.Instrs); i++ {
+			ins := b.Instrs[i]
+			if ins == ssa.Instruction(snd) {
+				sent = true
+				continue
+			}
+			if stt, isSt := ins.(*ssa.Store); isSt {
+				if f, isF := fieldOfRecv(fn, stt.Addr); isF && f == fname {
+					switch {
+					case isFreshSliceDeep(stt.Val, 3):
+						st = stFresh
+					case st == stFresh && derivedFromField(fn, stt.Val, fname):
+						// appending to the new buffer
+					default:
+						st = stBad
+					}
+				}
+				continue
+			}
+			end := false
+			if _, isU := isMutexCall(ins, "Unlock"); isU {
+				if _, isD := ins.(*ssa.Defer); !isD {
+					end = true
+				}
+			}
+			if _, isR := ins.(*ssa.Return); isR {
+				end = true
+			}
+			if end {
+				if sent && st != stFresh {
+					ok = false
+				}
+				return
+			}
+		}
+		for _, su := range b.Succs {
+			walk(su, 0, st, sent)
+		}
+	}
+	walk(ld.Block(), instrIndex(ld)+1, stNone, false)
+	return ok
+}
+
+// derivedFromField: v is an append to / a slice of a value loaded from the receiver's field.
+func derivedFromField(fn *ssa.Function, v ssa.Value, fname string) bool {
+	for depth := 0; depth < 6; depth++ {
+		switch x := v.(type) {
+		case *ssa.UnOp:
+			if x.Op == token.MUL {
+				f, ok := fieldOfRecv(fn, x.X)
+				return ok && f == fname
+			}
+			return false
+		case *ssa.Slice:
+			v = x.X
+		case *ssa.Call:
+			bi, ok := x.Call.Value.(*ssa.Builtin)
+			if !ok || bi.Name() != "append" {
+				return false
+			}
+			v = x.Call.Args[0]
+		default:
+			return false
+		}
+	}
+	return false
+}
+
+// isFreshSliceDeep: a make/nil/new backing array, possibly through module helpers whose every
+// return is such a value (newTriangle3Slice() { return make(...) }).
+func isFreshSliceDeep(v ssa.Value, depth int) bool {
+	if isFreshSlice(v) {
+		return true
+	}
+	if depth == 0 {
+		return false
+	}
+	c, ok := v.(*ssa.Call)
+	if !ok {
+		return false
+	}
+	callee := c.Call.StaticCallee()
+	if callee == nil || len(callee.Blocks) == 0 || callee.Signature.Results().Len() != 1 {
+		return false
+	}
+	n := 0
+	for _, b := range callee.Blocks {
+		for _, ins := range b.Instrs {
+			if rt, ok := ins.(*ssa.Return); ok {
+				n++
+				if len(rt.Results) != 1 || !isFreshSliceDeep(rt.Results[0], depth-1) {
+					return false
+				}
+			}
+		}
+	}
+	return n > 0
+}
+
 func negTok(op token.Token) token.Token {
 	switch op {
 	case token.LSS:
@@ -377,59 +493,169 @@ func negTok(op token.Token) token.Token {
 	return op
 }
 
-// ruleSinkOrder is G5/B4.
+// ruleSinkOrder is G5/B4: Render(...) -> close(ch) -> wg.Wait() on every path of the function
+// that owns the sink channel. The three steps may be delegated to module helpers that receive
+// the channel (closeAndWait(output, &wg), renderLines(s, r, output, &wg)): a helper call counts
+// as the steps its own body performs on every path, and the helper's body is checked with the
+// same rule.
 func ruleSinkOrder(ctx *Ctx, r *Report, rule string, fn *ssa.Function, sc sinkCreation) {
 	if sc.ch == nil {
 		return
 	}
 	callee := sc.call.Call.StaticCallee()
 	key := fmt.Sprintf("%s|%s", shortFn(fn), callee.Name())
-	var renders, closes, waits []ssa.Instruction
+	why := "the sink has consumed everything only then"
+	if rule == "G5" {
+		why = "the file is complete only then"
+	}
+	sinkOrderIn(ctx, r, rule, key, why, fn, sc.ch, sc.call, 0)
+}
+
+// sinkSteps summarises what a function does with the channel value ch on every path.
+type sinkSteps struct {
+	renders, closes, waits []ssa.Instruction
+	helperWaits            map[ssa.Instruction]bool // helper calls that close and then wait internally
+	helpers                []*ssa.Call
+	helperParam            map[*ssa.Call]*ssa.Parameter
+}
+
+func collectSinkSteps(fn *ssa.Function, ch ssa.Value, depth int) sinkSteps {
+	st := sinkSteps{helperWaits: map[ssa.Instruction]bool{}, helperParam: map[*ssa.Call]*ssa.Parameter{}}
 	allInstrs(fn, func(b *ssa.BasicBlock, ins ssa.Instruction) {
 		c, ok := ins.(*ssa.Call)
 		if !ok {
 			return
 		}
 		if c.Call.IsInvoke() && c.Call.Method.Name() == "Render" {
-			renders = append(renders, c)
+			st.renders = append(st.renders, c)
 		}
-		if bi, ok := c.Call.Value.(*ssa.Builtin); ok && bi.Name() == "close" && len(c.Call.Args) == 1 && c.Call.Args[0] == sc.ch {
-			closes = append(closes, c)
+		if bi, ok := c.Call.Value.(*ssa.Builtin); ok && bi.Name() == "close" && len(c.Call.Args) == 1 && sameChan(c.Call.Args[0], ch) {
+			st.closes = append(st.closes, c)
 		}
 		if isWaitGroupCall(c, "Wait") {
-			waits = append(waits, c)
+			st.waits = append(st.waits, c)
 		}
-	})
-	if len(renders) == 0 {
-		renders = []ssa.Instruction{sc.call}
-	}
-	in := func(set []ssa.Instruction) func(ssa.Instruction) bool {
-		return func(x ssa.Instruction) bool {
-			for _, c := range set {
-				if c == x {
-					return true
+		// a module helper that receives the channel
+		h := c.Call.StaticCallee()
+		if h == nil || len(h.Blocks) == 0 || depth >= 3 || c.Call.IsInvoke() {
+			return
+		}
+		takesChan := false
+		for _, a := range c.Call.Args {
+			if sameChan(a, ch) {
+				takesChan = true
+			}
+		}
+		if !takesChan {
+			// a helper that waits for the group on every path (waitFor(&wg)) is a Wait
+			isW := func(x ssa.Instruction) bool { cc, ok := x.(*ssa.Call); return ok && isWaitGroupCall(cc, "Wait") }
+			entry := h.Blocks[0].Instrs[0]
+			if isW(entry) || everyPathHits(entry, isW) {
+				st.waits = append(st.waits, c)
+			}
+			return
+		}
+		for i, a := range c.Call.Args {
+			if !sameChan(a, ch) || i >= len(h.Params) {
+				continue
+			}
+			if _, isCh := h.Params[i].Type().Underlying().(*types.Chan); !isCh {
+				continue
+			}
+			hs := collectSinkSteps(h, h.Params[i], depth+1)
+			if len(hs.closes) == 0 && len(hs.renders) == 0 {
+				continue // e.g. NewTriangle3Buffer(output): wraps the channel, does not end it
+			}
+			st.helpers = append(st.helpers, c)
+			st.helperParam[c] = h.Params[i]
+			entry := h.Blocks[0].Instrs[0]
+			closesAlways := len(hs.closes) > 0 && (instrIn(hs.closes)(entry) || everyPathHits(entry, instrIn(hs.closes)))
+			if closesAlways {
+				st.closes = append(st.closes, c)
+				waited := true
+				for _, cl := range hs.closes {
+					if !hs.helperWaits[cl] && !everyPathHits(cl, instrIn(hs.waits)) {
+						waited = false
+					}
+				}
+				if waited {
+					st.helperWaits[c] = true
 				}
 			}
+			if len(hs.renders) > 0 {
+				st.renders = append(st.renders, c)
+			}
+		}
+	})
+	return st
+}
+
+// sameChan: v is ch, possibly through a channel-direction conversion.
+func sameChan(v, ch ssa.Value) bool {
+	for i := 0; i < 4; i++ {
+		if v == ch {
+			return true
+		}
+		switch x := v.(type) {
+		case *ssa.ChangeType:
+			v = x.X
+		case *ssa.Convert:
+			v = x.X
+		default:
 			return false
 		}
 	}
+	return false
+}
+
+func instrIn(set []ssa.Instruction) func(ssa.Instruction) bool {
+	return func(x ssa.Instruction) bool {
+		for _, c := range set {
+			if c == x {
+				return true
+			}
+		}
+		return false
+	}
+}
+
+func sinkOrderIn(ctx *Ctx, r *Report, rule, key, why string, fn *ssa.Function, ch ssa.Value, origin ssa.Instruction, depth int) {
+	st := collectSinkSteps(fn, ch, depth)
+	renders := st.renders
+	if len(renders) == 0 && origin != nil {
+		// a producer other than a renderer (a mesh saver) still has to close and wait
+		renders = []ssa.Instruction{origin}
+	}
+	// (a helper without a Render call only ends the stream; that it closes on every path was
+	// established when its call was counted as a close)
 	for i, rd := range renders {
-		r.check(rule, fmt.Sprintf("%s|close-after-render#%d", key, i+1), rd.Pos(), everyPathHits(rd, in(closes)),
+		ok := everyPathHits(rd, instrIn(st.closes))
+		if _, isHelper := st.helperParam[asCall(rd)]; isHelper && instrIn(st.closes)(rd) {
+			ok = true // the helper renders and closes itself (its body is checked below)
+		}
+		r.check(rule, fmt.Sprintf("%s|close-after-render#%d", key, i+1), rd.Pos(), ok,
 			"every path from Render to return must close the sink channel (the sink goroutine never ends otherwise)")
 	}
-	okW := len(closes) > 0
-	for _, c := range closes {
-		if !everyPathHits(c, in(waits)) {
+	okW := len(st.closes) > 0
+	for _, c := range st.closes {
+		if st.helperWaits[c] {
+			continue
+		}
+		if !everyPathHits(c, instrIn(st.waits)) {
 			okW = false
 		}
 	}
-	r.check(rule, key+"|wait-after-close", sc.call.Pos(), okW, "every path from close(output) to return must pass wg.Wait() (the sink has consumed everything only then)")
+	pos := fn.Pos()
+	if origin != nil {
+		pos = origin.Pos()
+	}
+	r.check(rule, key+"|wait-after-close", pos, okW, "every path from close(output) to return must pass wg.Wait() ("+why+")")
 	noEarly := true
-	for _, w := range waits {
+	for _, w := range st.waits {
 		for _, rd := range renders {
-			if precedes(rd, w) {
+			if precedes(rd, w) || rd.Block() == w.Block() && instrIndex(rd) < instrIndex(w) {
 				hit := false
-				for _, c := range closes {
+				for _, c := range st.closes {
 					if precedes(c, w) {
 						hit = true
 					}
@@ -440,7 +666,22 @@ func ruleSinkOrder(ctx *Ctx, r *Report, rule string, fn *ssa.Function, sc sinkCr
 			}
 		}
 	}
-	r.check(rule, key+"|no-wait-before-close", sc.call.Pos(), noEarly, "wg.Wait() before close(output) waits for a goroutine that is still draining: deadlock")
+	r.check(rule, key+"|no-wait-before-close", pos, noEarly, "wg.Wait() before close(output) waits for a goroutine that is still draining: deadlock")
+	// the helpers' own bodies
+	done := map[*ssa.Function]bool{}
+	for _, hc := range st.helpers {
+		h := hc.Call.StaticCallee()
+		if done[h] {
+			continue
+		}
+		done[h] = true
+		sinkOrderIn(ctx, r, rule, key+"|via "+shortFn(h), why, h, st.helperParam[hc], nil, depth+1)
+	}
+}
+
+func asCall(x ssa.Instruction) *ssa.Call {
+	c, _ := x.(*ssa.Call)
+	return c
 }
 
 // isErrorCond: v is a comparison of an error-typed value with nil.
@@ -468,7 +709,7 @@ func ruleConsumerLoop(ctx *Ctx, r *Report, gs goSite, loops []recvOp) {
 		return
 	}
 	// the range loop over batch: phi [-1, phi+1], cmp phi+1 < len(batch)
-	var idx *ssa.BinOp // phi + 1
+	var idx ssa.Value // the element index: phi+1 of a range loop, or the phi of `for i := 0; i < len(batch); i++`
 	var hdr *ssa.BasicBlock
 	for _, b := range fn.Blocks {
 		for _, ins := range b.Instrs {
@@ -489,7 +730,7 @@ func ruleConsumerLoop(ctx *Ctx, r *Report, gs goSite, loops []recvOp) {
 			}
 			c, isC := init.(*ssa.Const)
 			bo, isB := step.(*ssa.BinOp)
-			if !isC || !isB || c.Value == nil || c.Value.Kind() != constant.Int || c.Int64() != -1 {
+			if !isC || !isB || c.Value == nil || c.Value.Kind() != constant.Int || (c.Int64() != -1 && c.Int64() != 0) {
 				continue
 			}
 			if one, ok := constInt(bo.Y); !ok || one != 1 || bo.Op != token.ADD || bo.X != ssa.Value(phi) {
@@ -501,7 +742,15 @@ func ruleConsumerLoop(ctx *Ctx, r *Report, gs goSite, loops []recvOp) {
 				continue
 			}
 			cmp, ok := iff.Cond.(*ssa.BinOp)
-			if !ok || cmp.Op != token.LSS || cmp.X != ssa.Value(bo) {
+			if !ok || cmp.Op != token.LSS {
+				continue
+			}
+			var cand ssa.Value
+			if c.Int64() == -1 && cmp.X == ssa.Value(bo) {
+				cand = bo // range form: the index is phi+1, tested before the body
+			} else if c.Int64() == 0 && cmp.X == ssa.Value(phi) {
+				cand = phi // counted form: i from 0, tested before the body, incremented after it
+			} else {
 				continue
 			}
 			ln, ok := cmp.Y.(*ssa.Call)
@@ -511,7 +760,7 @@ func ruleConsumerLoop(ctx *Ctx, r *Report, gs goSite, loops []recvOp) {
 			if bi, ok := ln.Call.Value.(*ssa.Builtin); !ok || bi.Name() != "len" || ln.Call.Args[0] != batch {
 				continue
 			}
-			idx, hdr = bo, b
+			idx, hdr = cand, b
 		}
 	}
 	r.check("B5", gs.key+"|ranges-over-whole-batch", gs.instr.Pos(), idx != nil, "the sink must `range` over the received batch itself (index from 0 to len-1 in steps of 1, ascending)")
